@@ -40,10 +40,12 @@
 (*  as-implemented   int_via_float64, float_fastfloat, ts_mult_wraps       *)
 (*   (value level: the decoded value is marked `via`, the replay side      *)
 (*    applies the arithmetic of the deviation model)                       *)
+(*  as-implemented   batch_last_line_decides (operators BatchStatus ..)    *)
+(*   (batch level)                                                         *)
 (* The design automaton d runs with Dev ({} = the documented grammar); the *)
 (* automata m[D] run with Dev \cup D for D a single as-implemented         *)
 (* deviation or all of them: their outcomes are the predictions of the     *)
-(* deviation models of known_findings.json (F-C06-1..7).                      *)
+(* deviation models of known_findings.json (F-C06-1..7).                   *)
 (***************************************************************************)
 EXTENDS Integers, Sequences, FiniteSets, TLC
 
